@@ -127,6 +127,30 @@ def memo_purity():
                      and any(t in flow.dotted(c.args[1]) for t in ("int", "float", "bool", "str"))]
             obs.append(flow.ob(f"{m.split('.')[-1]}.{fn.name}:memoised-body-reads-no-clock-or-environment", not impure, str(impure), replay_schema="code", replay_extra={"code": REPLAY}))
             obs.append(flow.ob(f"{m.split('.')[-1]}.{fn.name}:memo-key-does-not-conflate-type-dependent-arguments", not typed, str(typed)[:200], replay_schema="code", replay_extra={"code": REPLAY}))
+            # key equality must imply observational equality: == on aware datetimes (same instant,
+            # different zone), on 1 / 1.0 / Decimal('1.0'), or on arbitrary objects does not
+            import re as _re
+            loose = []
+            for a in fn.args.args + fn.args.kwonlyargs:
+                ann = ast.unparse(a.annotation) if a.annotation is not None else "<unannotated>"
+                atoms = set(_re.findall(r"[A-Za-z_][A-Za-z_0-9.]*", ann))
+                if not atoms <= {"str", "bool", "int", "Mode", "Environment", "BaseLoader", "Undefined", "Type", "type", "Optional", "Mapping", "object", "None", "typing"} or ann in ("object", "<unannotated>"):
+                    loose.append(f"{a.arg}: {ann}")
+            obs.append(flow.ob(f"{m.split('.')[-1]}.{fn.name}:memo-key-equality-implies-equal-behaviour(key-types)", not loose, str(loose), replay_schema="code", replay_extra={"code": REPLAY_MEMO_DATE}))
+    # objects handed out by memo tables are shared by every later parse/render: their methods
+    # must not keep per-use state on them (Environment is configuration and is exempt)
+    pm = load.get_module("liquid.parser")
+    gp = pm.funcs["get_parser"]
+    made = [flow.dotted(c.func) for st_ in gp.body for c in flow.calls(st_)]
+    obs.append(flow.ob("get_parser:returns-a-Parser", made == ["Parser"], str(made)))
+    stores = []
+    for fn in [n for n in pm.classes["Parser"].body if isinstance(n, (ast.FunctionDef, ast.AsyncFunctionDef)) and n.name != "__init__"]:
+        for n in ast.walk(fn):
+            if isinstance(n, (ast.Attribute, ast.Subscript)) and isinstance(n.ctx, (ast.Store, ast.Del)) and flow.dotted(n).startswith("self."):
+                stores.append(f"{fn.name}:{flow.dotted(n)[:40]}")
+            if isinstance(n, ast.Call) and isinstance(n.func, ast.Attribute) and n.func.attr in MUTATORS and flow.dotted(n.func.value).startswith("self.") and not flow.dotted(n.func.value).startswith("self.env"):
+                stores.append(f"{fn.name}:{flow.dotted(n)[:40]}")
+    obs.append(flow.ob("Parser:the-shared-parser-keeps-no-per-parse-state", not stores, str(stores), replay_schema="code", replay_extra={"code": REPLAY_PARSER_STATE}))
     obs.append(flow.ob("memoised-functions-enumerated", len(found) >= 3, str(found)))
     return obs
 
@@ -160,6 +184,37 @@ not_covered("C17", "the statement's exemptions (current time via now/today, temp
             "the write-set obligations are syntactic over method bodies (aliases through local variables of self attributes are followed one level); the bounded history check renders sequences and compares deep copies of the data")
 
 bounded("C17", "bounded/C17.py")
+
+REPLAY_PARSER_STATE = r'''
+def run(m):
+    from liquid import Environment
+    from liquid.exceptions import LiquidError
+    env = Environment()
+    deep = lambda n: "{% if true %}" * n + "x" + "{% endif %}" * n
+    ok_before = env.from_string(deep(30)).render()
+    for _ in range(3):
+        try:
+            env.from_string(deep(40))
+        except LiquidError:
+            pass
+    try:
+        ok_after = env.from_string(deep(30)).render()
+    except LiquidError as e:
+        ok_after = type(e).__name__
+    return {"violated": ok_after != ok_before, "observed": [ok_before, ok_after]}
+'''
+
+REPLAY_MEMO_DATE = r'''
+def run(m):
+    import datetime as dt
+    from liquid import Environment
+    t = Environment().from_string("{{ d | date: '%H:%M %z' }}")
+    a = dt.datetime(2024, 1, 1, 12, 0, tzinfo=dt.timezone.utc)
+    b = a.astimezone(dt.timezone(dt.timedelta(hours=5)))
+    first = t.render(d=a)
+    second = t.render(d=b)
+    return {"violated": second != b.strftime("%H:%M %z"), "observed": [first, second]}
+'''
 
 REPLAY = r'''
 def run(m):
